@@ -27,6 +27,12 @@ func VerifH_C17_jobstatus() {
 		return
 	}
 	polls := 0
+	type snap struct {
+		st    *gripql.JobStatus
+		count uint64
+		state gripql.JobState
+	}
+	var snaps []snap
 	for {
 		st, err := fs.Status("g", id)
 		vAssert("C17.jobstatus.status-available", err == nil && st != nil)
@@ -34,9 +40,18 @@ func VerifH_C17_jobstatus() {
 			return
 		}
 		vAssert("C17.jobstatus.count-within-bounds", st.Count <= uint64(n))
+		// what the service hands to a client is read (serialised) outside any lock of the
+		// storage, and it is a snapshot: it does not change once it has been returned
+		c0, s0 := c17ReadStatusTracked(st)
+		snaps = append(snaps, snap{st, c0, s0})
 		ch, _ := fs.Search("g", c11Stmts(3))
-		for range ch {
+		found := 0
+		for js := range ch {
+			c1, s1 := c17ReadStatusTracked(js)
+			snaps = append(snaps, snap{js, c1, s1})
+			found++
 		}
+		vAssert("C17.jobstatus.search-finds-job", found == 1)
 		if st.State == gripql.JobState_COMPLETE {
 			vAssert("C17.jobstatus.complete-count", st.Count == uint64(n))
 			break
@@ -49,4 +64,14 @@ func VerifH_C17_jobstatus() {
 		vYield()
 	}
 	vReach("c17.jobstatus.complete")
+	for _, sn := range snaps {
+		c, st := c17ReadStatusTracked(sn.st)
+		vAssert("C17.jobstatus.returned-status-is-a-snapshot", c == sn.count && st == sn.state)
+	}
+}
+
+// c17ReadStatusTracked stands for the gRPC layer serialising a returned status:
+// its reads count for the race analysis (function name ends in Tracked).
+func c17ReadStatusTracked(st *gripql.JobStatus) (uint64, gripql.JobState) {
+	return st.Count, st.State
 }
